@@ -151,5 +151,23 @@ pos("carry-decaddat-one-word-window","dec.go","				add10VW(z[j:], z[j:], c)","		
 pos("sibling-karatsubasub-half-window","dec.go","		sub10VW(z[n:n+n>>1], z[n:], c)","		sub10VW(z[n:n+n>>2], z[n:], c)","SIBLING","decKaratsubaAdd~decKaratsubaSub",quick=True,note="seed r5-C05C")
 neg("sibling-karatsuba-windows-rewritten","dec.go","		sub10VW(z[n:n+n>>1], z[n:], c)","		sub10VW(z[n:n>>1+n], z[n:], c)",["SIBLING"])
 pos("workprec-floatpow5-minprec","stdlib.go","	f := new(big.Float).SetPrec(z.Prec() + 64).SetUint64(5)","	f := new(big.Float).SetPrec(z.MinPrec() + 64).SetUint64(5)","WORKPREC","floatPow5",quick=True,note="seed r5-C15C")
+# normalisation: checks moved into a helper (and one of them lost on the way)
+C.append({"name":"norm-gob-checks-extracted-word-test-lost","kind":"positive","quick":True,"edits":[
+ {"file":"decimal_marsh.go","old":"\t\tif len(m) == 0 || m[len(m)-1] < _DB/10 {\n\t\t\treturn errors.New(\"Decimal.GobDecode: mantissa is not normalized\")\n\t\t}\n\t\tfor _, w := range m {\n\t\t\tif w >= _DB {\n\t\t\t\treturn errors.New(\"Decimal.GobDecode: invalid mantissa word\")\n\t\t\t}\n\t\t}\n\t\tif uint(len(m))*_DW-m.trailingZeroDigits() > uint(prec) {\n\t\t\treturn errors.New(\"Decimal.GobDecode: mantissa does not fit precision\")\n\t\t}\n","new":"\t\tif err := gobCheckMant(m, prec); err != nil {\n\t\t\treturn err\n\t\t}\n"},
+ {"file":"decimal_marsh.go","old":"// UnmarshalText implements the encoding.TextUnmarshaler interface.","new":"func gobCheckMant(m dec, prec uint32) error {\n\tif len(m) == 0 || m[len(m)-1] < _DB/10 {\n\t\treturn errors.New(\"Decimal.GobDecode: mantissa is not normalized\")\n\t}\n\tif uint(len(m))*_DW-m.trailingZeroDigits() > uint(prec) {\n\t\treturn errors.New(\"Decimal.GobDecode: mantissa does not fit precision\")\n\t}\n\treturn nil\n}\n\n// UnmarshalText implements the encoding.TextUnmarshaler interface."}],
+ "expect":[{"rule":"GOB","construct":"G2:mant/words<base"}],"note":"the validity tests of the decoded mantissa extracted into a helper with several returns, the test of the words against the base lost: found after the helper is inlined back (normalisation pass)"})
+C.append({"name":"norm-gob-checks-extracted","kind":"negative","quick":True,"edits":[
+ {"file":"decimal_marsh.go","old":"\t\tif len(m) == 0 || m[len(m)-1] < _DB/10 {\n\t\t\treturn errors.New(\"Decimal.GobDecode: mantissa is not normalized\")\n\t\t}\n\t\tfor _, w := range m {\n\t\t\tif w >= _DB {\n\t\t\t\treturn errors.New(\"Decimal.GobDecode: invalid mantissa word\")\n\t\t\t}\n\t\t}\n\t\tif uint(len(m))*_DW-m.trailingZeroDigits() > uint(prec) {\n\t\t\treturn errors.New(\"Decimal.GobDecode: mantissa does not fit precision\")\n\t\t}\n","new":"\t\tif err := gobCheckMant(m, prec); err != nil {\n\t\t\treturn err\n\t\t}\n"},
+ {"file":"decimal_marsh.go","old":"// UnmarshalText implements the encoding.TextUnmarshaler interface.","new":"func gobCheckMant(m dec, prec uint32) error {\n\tif len(m) == 0 || m[len(m)-1] < _DB/10 {\n\t\treturn errors.New(\"Decimal.GobDecode: mantissa is not normalized\")\n\t}\n\tfor _, w := range m {\n\t\tif w >= _DB {\n\t\t\treturn errors.New(\"Decimal.GobDecode: invalid mantissa word\")\n\t\t}\n\t}\n\tif uint(len(m))*_DW-m.trailingZeroDigits() > uint(prec) {\n\t\treturn errors.New(\"Decimal.GobDecode: mantissa does not fit precision\")\n\t}\n\treturn nil\n}\n\n// UnmarshalText implements the encoding.TextUnmarshaler interface."}],
+ "rules":["GOB","WORD","FX-OWN"],"note":"the same extraction, complete"})
+# aliasing: a renamed function keeps its construct name (and its obligations)
+C.append({"name":"alias-intmant-renamed-and-reached-for-zero","kind":"positive","edits":[
+ {"file":"decimal.go","old":"func (x *Decimal) intMant() dec {","new":"func (x *Decimal) integralDigits() dec {"},
+ {"file":"decimal.go","old":"		z.SetBits(decToNat(z.Bits(), x.intMant()))","new":"		z.SetBits(decToNat(z.Bits(), x.integralDigits()))"},
+ {"file":"decimal.go","old":"			if t, ok := x.intMant().toUint64(); ok {","new":"			if t, ok := x.integralDigits().toUint64(); ok {"},
+ {"file":"decimal.go","old":"			if r, ok := x.intMant().toUint64(); ok {","new":"			if r, ok := x.integralDigits().toUint64(); ok {"},
+ {"file":"decimal.go","old":"		z = new(big.Int)\n	}\n\n	switch x.form {\n	case finite:\n","new":"		z = new(big.Int)\n	}\n\n	switch x.form {\n	case finite, zero:\n"},
+ {"file":"decimal.go","old":"		return z, acc\n\n	case zero:\n		return z.SetInt64(0), Exact\n\n	case inf:\n		return nil, makeAcc(x.neg)","new":"		return z, acc\n\n	case inf:\n		return nil, makeAcc(x.neg)"}],
+ "expect":[{"rule":"STALE","construct":"(*Decimal).intMant"}],"note":"intMant renamed everywhere and Int made to reach it for a zero: reported under the pinned construct name (fingerprint aliasing)"})
 json.dump(C,open("seedrules.json","w"),indent=1,ensure_ascii=False)
 print(len(C),"controls")
